@@ -143,6 +143,8 @@ def one_unary(acc, spec, scheme='s'):
 
 
 def check_total(acc, spec, mask, scheme='s'):
+    if spec[1] == 2 and mask % 3 == 1:
+        scheme = 'f'        # states q9, q10: a fresh-name generator must not hand out an existing name
     """Partial DFAs: the transitions selected by `mask` are removed from a total delta."""
     m = lib()
     from gambatools.dfa import DFA
@@ -209,6 +211,13 @@ def check_helpers(acc, shard, nshard):
             if ok:
                 acc.evals += 1
                 acc.validated += 1
+                if isinstance(got, set) and got is not arg:
+                    keep = set(got)
+                    got.clear()                    # the caller owns the result
+                    ok2, again = core.lib_call(acc, name, inst, getattr(la, name), set(L), repro=rp)
+                    if ok2 and again != keep:
+                        acc.viol(name, 'a second call returns something else after the caller modified the first result', inst, repro=rp, observed=again)
+                    got = keep
                 if got != exp or not isinstance(got, set):
                     acc.viol(name, 'result differs from the documented set operation', inst, repro=rp, observed=got, expected=exp)
                 if arg != L:
@@ -239,6 +248,13 @@ def check_helpers(acc, shard, nshard):
                     acc.transitions += 1
                     if ok:
                         acc.evals += 1
+                        if isinstance(got, set):
+                            keep = set(got)
+                            got.clear()
+                            ok2, again = core.lib_call(acc, name, inst, getattr(la, name), set(Sg), n)
+                            if ok2 and again != keep:
+                                acc.viol(name, 'a second call returns something else after the caller modified the first result', inst, observed=again)
+                            got = keep
                         if got != exp:
                             acc.viol(name, 'result differs from Sigma^n / Sigma^<=n', inst, repro=dict(rp0, params={'words': [k, n]}), observed=got, expected=exp)
         for text, exp in (('a b ε', {'a', 'b', ''}), ('_', {''}), ('', set()), (' ab  ba\n a ', {'ab', 'ba', 'a'})):
@@ -258,8 +274,8 @@ def t_pairs(acc, n1, n2, k, shard, nshard, stride=1, offset=0):
         check_pair(acc, spaces.dfa_spec(n1, k, idx // size2), spaces.dfa_spec(n2, k, idx % size2))
 
 
-def t_unary(acc, n, k, shard, nshard, scheme='s'):
-    for idx in range(shard, spaces.dfa_size(n, k), nshard):
+def t_unary(acc, n, k, shard, nshard, scheme='s', stride=1, offset=0):
+    for idx in range((offset % stride) + shard * stride, spaces.dfa_size(n, k), nshard * stride):
         check_unary(acc, spaces.dfa_spec(n, k, idx), scheme)
 
 
@@ -277,9 +293,9 @@ def plan(tier, seed):
         for s in range(nshard):
             tasks.append(('plain', P + 't_pairs', {'n1': n1, 'n2': n2, 'k': k, 'shard': s, 'nshard': nshard, 'stride': stride, 'offset': seed}))
 
-    def unary(n, k, nshard, scheme='s'):
+    def unary(n, k, nshard, scheme='s', stride=1):
         for s in range(nshard):
-            tasks.append(('plain', P + 't_unary', {'n': n, 'k': k, 'shard': s, 'nshard': nshard, 'scheme': scheme}))
+            tasks.append(('plain', P + 't_unary', {'n': n, 'k': k, 'shard': s, 'nshard': nshard, 'scheme': scheme, 'stride': stride, 'offset': seed}))
 
     def total(n, k, nshard):
         for s in range(nshard):
@@ -296,6 +312,10 @@ def plan(tier, seed):
     unary(2, 2, 1, 'q')
     unary(3, 1, 1, 'q')
     unary(2, 1, 1, 'x')
+    for sch in ('t', 'd', 'f'):
+        unary(2, 2, 1, sch)
+        unary(3, 1, 1, sch)
+    unary(4, 2, 32, 's', stride=64 if tier == 'quick' else 4)
     total(1, 1, 1), total(1, 2, 1), total(2, 1, 1), total(2, 2, 2)
     for s in range(8):
         tasks.append(('plain', P + 'check_helpers', {'shard': s, 'nshard': 8}))
@@ -311,6 +331,7 @@ def plan(tier, seed):
         unary(3, 2, 8, 'q')
         total(3, 1, 4)
         bounds = 'pairs DFA(n<=2,k<=2)^2, DFA(n<=3,1)^2 all; DFA(3,2)xDFA(2,2) both orders stride 1/4; unary DFA(n<=3,k<=2), DFA(4,1); partial DFAs n<=2, (3,1); helpers on all 128 finite languages (pairs: 16 384)'
+    tasks = tasks + common.ordered_copies(tasks, lambda name, p: name.endswith('t_unary') and (p['n'], p['k']) in ((3, 1), (2, 2), (4, 2)) and p['scheme'] == 's' and p['shard'] % 4 == 0)
     return {'tasks': tasks, 'bounds': {'spaces': bounds}, 'exhaustive': True,
             'rule': 'every pair / every DFA in the bounds x each construction, exact equivalence with an oracle-built reference construction; helpers on every finite language over {a,b}^<=2; non-trivial = operands with different languages / unreachable or mixed accepting states / at least one removed transition',
             'assumptions': ['partial DFAs are built with check_validity=False and read as: missing transition = no run']}
